@@ -338,8 +338,8 @@ type c18Op struct {
 	T   int     `json:"t,omitempty"`   // done: token
 	R   string  `json:"r,omitempty"`   // done: ok fail timeout; subfail subtimeout (remote: the publisher was created, attaching the subscriber fails; model: MFail / MTimeout)
 	// create-sub: the remote form (remoteUrl + remoteToken: NewRemotePublisher, then NewRemoteSubscriber).
-	// The model has one create-subscriber: on the code as it should be the remote form differs from the
-	// local one in nothing the observation contains (the remote publisher lives exactly as long as its subscriber).
+	// Model: CCreateSubRemote, which `step` treats like CCreateSub: on the code as it should be the remote form differs
+	// from the local one in nothing the observation contains (the remote publisher lives exactly as long as its subscriber).
 	Remote bool `json:"remote,omitempty"`
 	// bye, expire: creations that complete while the close of the session is frozen in a window
 	In []c18Slot `json:"in,omitempty"`
@@ -1170,6 +1170,7 @@ func (h *c18Run) exec(i int, o c18Op) (opTerm, obTerm string, skipCase bool) {
 			opTerm = fmt.Sprintf("OCmd %d CCreateSub", o.C)
 			body = map[string]interface{}{"type": "create-subscriber", "streamType": "video", "publisherId": "pub"}
 			if o.Remote {
+				opTerm = fmt.Sprintf("OCmd %d CCreateSubRemote", o.C)
 				body["remoteUrl"] = "https://c18-remote.invalid"
 				body["remoteToken"] = h.remoteToken("pub")
 			}
